@@ -114,7 +114,7 @@ Definition pushes (n : nat) : list call := map (fun i => CPush (N.of_nat i)) (se
 (* open finding C05-late-claim: thread 1 loads tail, thread 2 clears (detach, quiescence test,
    read), then thread 1 claims: its value is lost *)
 Definition late_claim_case : case :=
-  ([[CPush 1]; [CPush 2]; [CClear]],
+  (plain [[CPush 1]; [CPush 2]; [CClear]],
    [0; 0; 0; 0; 0; 0; 1; 1; 2; 2; 2; 2; 2; 2; 2; 1; 1; 1]%N).
 
 Lemma late_claim_refutes : exists c, known_class c = Some 1%N /\ spec_ok c (run_case c) = false.
@@ -124,7 +124,7 @@ Proof. exists late_claim_case. split; vm_compute; reflexivity. Qed.
    before the fix the link was a later step (513) and a snapshot in between misses two
    completed pushes; the class of the open finding is not involved *)
 Definition handover_case : case :=
-  ([pushes 3; [CData]],
+  (plain [pushes 3; [CData]],
    [0; 0; 0; 0; 0; 0; 0; 0; 0; 0; 0; 0; 0; 1; 1; 1; 1; 1; 1]%N).
 
 Definition spec_gen (B : nat) (fxa fxc : bool) (c : case) : bool := spec_ok c (out_gen B fxa fxc c).
@@ -136,7 +136,7 @@ Proof. vm_compute. auto. Qed.
 
 (* defect (c): thread 0 claimed slot 0, thread 1 completed a push into slot 1, then is_empty *)
 Definition hidden_case : case :=
-  ([[CPush 1]; [CPush 2]; [CEmpty]], [0; 0; 0; 0; 1; 1; 1; 1; 1; 2; 2; 2; 2]%N).
+  (plain [[CPush 1]; [CPush 2]; [CEmpty]], [0; 0; 0; 0; 1; 1; 1; 1; 1; 2; 2; 2; 2]%N).
 
 Lemma is_empty_refuted_before_fix :
   late_claim_gen BS true false hidden_case = false /\ spec_gen BS true false hidden_case = false /\
@@ -146,9 +146,16 @@ Proof. vm_compute. auto. Qed.
 (* the hypotheses are satisfiable on non-trivial runs: a hand-over raced by a snapshot and a
    clear, real block size *)
 Definition example_case : case :=
-  ([pushes 66; [CData; CClear]; [CPush 7; CEmpty]],
+  (plain [pushes 66; [CData; CClear]; [CPush 7; CEmpty]],
    (repeat 0 250 ++ [1; 2; 2; 1; 0; 0; 1; 2; 0; 1; 1; 2; 0; 0; 1; 2; 2; 0; 1; 1; 0; 2]
     ++ repeat 0 20 ++ repeat 2 8 ++ repeat 1 14)%N).
 
 Lemma example_ok : known_class example_case = None /\ spec_ok example_case (run_case example_case) = true.
+Proof. vm_compute. auto. Qed.
+
+(* record_many through the expansion: a zero count adds nothing, 65 copies cross a hand-over *)
+Definition record_many_case : case :=
+  ([[XMany 1 0; XCall CEmpty; XMany 2 65; XCall CData; XMany 3 0; XCall CClear; XCall CEmpty]], []).
+
+Lemma record_many_example : known_class record_many_case = None /\ spec_ok record_many_case (run_case record_many_case) = true.
 Proof. vm_compute. auto. Qed.
